@@ -871,4 +871,54 @@ theorem inv_clspos_foldl (c : Cfg) (hc : c.sites.Nodup) (ops : List Op) (s : Sta
 theorem clspos_run (c : Cfg) (hc : c.sites.Nodup) (ops : List Op) (hok : RunOK c init ops) :
     ClsPos (run c ops) := inv_clspos_foldl c hc ops init inv_init clspos_init hok
 
+/-! ### per-site view of one day (used by C06) -/
+
+theorem applyOutcome_log (p : PlannerP) (o : Outcome) (x : PlannerS) : (applyOutcome p o x).log = x.log := by
+  unfold applyOutcome; cases o <;> rfl
+
+theorem request_log (c : Cfg) (dt : Date) (s : State) (i : Nat) :
+    ((requestPhase c dt s).pl i).log = (s.pl i).log := by
+  unfold requestPhase; simp only; split <;> rfl
+
+theorem request_queued (c : Cfg) (dt : Date) (s : State) (i : Nat) :
+    ((requestPhase c dt s).pl i).queued = ((s.pl i).queued || decide (i ∈ issued c dt s)) := by
+  unfold requestPhase; simp only
+  by_cases h : i ∈ issued c dt s <;> simp [h]
+
+theorem deployed_log (c : Cfg) (d : DayIn) (s1 : State) (i : Nat) :
+    (deployed c d s1 i).log = (s1.pl i).log := by
+  unfold deployed; split
+  · exact applyOutcome_log _ _ _
+  · rfl
+
+theorem deployed_queued (c : Cfg) (d : DayIn) (s1 : State) (i : Nat) :
+    (deployed c d s1 i).queued = (s1.pl i).queued := by
+  unfold deployed; split
+  · exact applyOutcome_queued _ _ _
+  · rfl
+
+/-- site `i`'s survey completes on day `d` started in state `s` -/
+def completesAt (c : Cfg) (d : DayIn) (s : State) (i : Nat) : Bool :=
+  decide (i ∈ planKeys c (requestPhase c d.date s)) && isComplete (deployed c d (requestPhase c d.date s) i)
+
+/-- the planner of site `i` after a day: either the survey completed today (then the year is logged
+and the flag cleared) or log and flag are those after the request phase -/
+theorem day_site (c : Cfg) (d : DayIn) (s : State) (i : Nat) :
+    ((scheduleDay c d s).pl i).log =
+        (if completesAt c d s i then d.date.y :: (s.pl i).log else (s.pl i).log) ∧
+    ((scheduleDay c d s).pl i).queued =
+        (if completesAt c d s i then false else ((requestPhase c d.date s).pl i).queued) := by
+  rw [scheduleDay_eq]
+  unfold finishDay completesAt
+  simp only [Bool.and_eq_true, decide_eq_true_eq]
+  split
+  · simp only [finish, deployed_log, request_log, and_self]
+  · simp only [deployed_log, request_log, deployed_queued, and_self]
+
+theorem planKeys_queued (c : Cfg) (s1 : State) (h : Inv s1) (i : Nat) (hi : i ∈ planKeys c s1) :
+    (s1.pl i).queued = true := by
+  apply (h.flag i).2
+  rw [sites_split c s1 h]
+  exact List.mem_append_left _ hi
+
 end LdarModel.Sched
